@@ -153,7 +153,7 @@ def main():
                 n0 = len(e.asm_calls)
                 out = e.call_outcome('(*%s.sm4GcmAsm).Open' % SM4, [aead.v, NILSLICE, e.new_slice(list(range(12))), e.new_slice([1] * cl) if cl else NILSLICE, NILSLICE])
                 if out.kind == 'panic' or out.values[1] is None or out.values[0].obj is not None or len(e.asm_calls) != n0:
-                    gbad.append('ciphertext of %d bytes (tag %d) is not refused with an error before touching memory' % (cl, ts))
+                    gbad.append(('ciphertext of %d bytes (tag %d) is not refused with an error before touching memory' % (cl, ts), cl, ts))
             for pl in (0, 5, 33):
                 dobj = e.new_slice([0x55] * (pl + 8))
                 dst = Slice(dobj.obj, (), 0, 2, pl + 8)
@@ -170,8 +170,11 @@ def main():
                 gbad.append('Open accepts a nonce of the wrong length')
     eng.explore(run_glue)
     ck.absorb(eng)
-    for g in sorted(set(gbad)):
-        add('glue', g, dict(key=STD_KEY, nonce=list(range(12)), ct=[1] * 5, aad=[], ts=16, forged=True))
+    for g in sorted(set(gbad), key=str):
+        if isinstance(g, tuple):
+            add('glue', g[0], dict(key=STD_KEY, nonce=list(range(12)), ct=[1] * g[1], aad=[], ts=g[2], forged=True))
+        else:
+            add('glue', g, dict(key=STD_KEY, nonce=list(range(12)), ct=[1] * 5, aad=[], ts=16, forged=True))
     secs = time.time() - t0
 
     # ------------------------------------------------------------ replay on the real build
